@@ -369,11 +369,17 @@ class Sym:
         raise HarnessError(f"unsupported exponent {k!r}")
 
     # comparisons -> SymBool
-    def _cmp(self, o, f):
+    def _cmp(self, o, f, name=""):
         if isinstance(o, np.ndarray):
             return NotImplemented
         if isinstance(o, Special):
             return NotImplemented
+        if isinstance(o, (float, np.floating)) and (math.isinf(o) or math.isnan(o)):
+            # a symbolic real is finite: comparisons with ±inf / nan are constants (IEEE semantics)
+            if math.isnan(o):
+                return SymBool(f(z3.RealVal(0), z3.RealVal(0)) if False else z3.BoolVal(name == "ne"))
+            big = z3.RealVal(1) if o > 0 else z3.RealVal(-1)
+            return SymBool(z3.simplify(f(z3.RealVal(0), big)))
         b = self._coerce(o)
         if b is None:
             return NotImplemented
@@ -384,7 +390,7 @@ class Sym:
     def __gt__(self, o): return self._cmp(o, lambda a, b: a > b)
     def __ge__(self, o): return self._cmp(o, lambda a, b: a >= b)
     def __eq__(self, o): return self._cmp(o, lambda a, b: a == b)
-    def __ne__(self, o): return self._cmp(o, lambda a, b: a != b)
+    def __ne__(self, o): return self._cmp(o, lambda a, b: a != b, "ne")
     __hash__ = None
 
     # numpy object-dtype ufunc hooks ------------------------------------------------------
@@ -409,6 +415,9 @@ class Sym:
     @property
     def imag(self):
         return Sym(rv(0))
+
+    def __format__(self, spec):   # logging / f-strings: formatting is not the subject of any property
+        return "<sym>"
 
     def __float__(self):
         c = const_value(z3.simplify(self.e))
